@@ -79,10 +79,6 @@ def initG : F α → Except PyErr (GTree α)
       let r ← initG ψ
       pure (.n2 c (← construct c [.int a, .int b]) l r)
 
-def numOf : V α → Except PyErr α
-  | .num x => .ok x
-  | _ => .error .type
-
 def stepG (env : String → α) : F α → GTree α → Except PyErr (GTree α × α)
   | .var x, .leaf => .ok (.leaf, env x)
   | .const c, .leaf => .ok (.leaf, c)
